@@ -204,3 +204,45 @@ Theorem C02_source_tuple_bodies :
    "let [$ ($ t) ,*] = array . into_array () ; ($ ($ t ,) *)").
 Proof. exact tie_tuple_bodies. Qed.
 
+
+(* ---- T1: the one-expression bodies this property's code consists of besides the modelled core, as they stand
+        in the source now (coq/gen/GenSigs.v gen_thin_bodies) ---- *)
+From Coq Require Import String.
+From GA Require Import SigTie.
+From GAGen Require Import GenSigs.
+Local Open Scope string_scope.
+
+Theorem C02_source_thin_bodies :
+  thin_of "Deref for GenericArray<T,N>" "deref" = Some "GenericArray :: as_slice (self)" /\
+  thin_of "DerefMut for GenericArray<T,N>" "deref_mut" = Some "GenericArray :: as_mut_slice (self)" /\
+  thin_of "IntoIterator for &GenericArray<T,N>" "into_iter" = Some "self . as_slice () . iter ()" /\
+  thin_of "IntoIterator for &mutGenericArray<T,N>" "into_iter" = Some "self . as_mut_slice () . iter_mut ()" /\
+  thin_of "GenericArray<T,N>" "as_slice" = Some "unsafe { slice :: from_raw_parts (self as * const Self as * const T , N :: USIZE) }" /\
+  thin_of "GenericArray<T,N>" "as_mut_slice" = Some "unsafe { slice :: from_raw_parts_mut (self as * mut Self as * mut T , N :: USIZE) }" /\
+  thin_of "GenericArray<T,N>" "try_from_mut_slice" = Some "match slice . len () == N :: USIZE { true => Ok (GenericArray :: from_mut_slice (slice)) , false => Err (LengthError) , }" /\
+  thin_of "TryFrom<&[T]> for &GenericArray<T,N>" "try_from" = Some "GenericArray :: try_from_slice (slice)" /\
+  thin_of "TryFrom<&mut[T]> for &mutGenericArray<T,N>" "try_from" = Some "GenericArray :: try_from_mut_slice (slice)" /\
+  thin_of "Borrow<[T]> for GenericArray<T,N>" "borrow" = Some "self . as_slice ()" /\
+  thin_of "BorrowMut<[T]> for GenericArray<T,N>" "borrow_mut" = Some "self . as_mut_slice ()" /\
+  thin_of "AsRef<[T]> for GenericArray<T,N>" "as_ref" = Some "self . as_slice ()" /\
+  thin_of "AsMut<[T]> for GenericArray<T,N>" "as_mut" = Some "self . as_mut_slice ()" /\
+  thin_of "From<[T;N]> for GenericArray<T,ConstArrayLength<N>>" "from" = Some "GenericArray :: from_array (value)" /\
+  thin_of "From<&[T;N]> for &GenericArray<T,ConstArrayLength<N>>" "from" = Some "unsafe { & * (slice . as_ptr () as * const GenericArray < T , ConstArrayLength < N > >) }" /\
+  thin_of "From<&mut[T;N]> for &mutGenericArray<T,ConstArrayLength<N>>" "from" = Some "unsafe { & mut * (slice . as_mut_ptr () as * mut GenericArray < T , ConstArrayLength < N > >) }" /\
+  thin_of "AsRef<[T;N]> for GenericArray<T,ConstArrayLength<N>>" "as_ref" = Some "unsafe { core :: mem :: transmute (self) }" /\
+  thin_of "AsMut<[T;N]> for GenericArray<T,ConstArrayLength<N>>" "as_mut" = Some "unsafe { core :: mem :: transmute (self) }".
+Proof. repeat split. Qed.
+
+(* from_slice / try_from_slice / from_mut_slice as they stand in src/lib.rs now: the length test, then the cast of
+   the slice's own data pointer *)
+Theorem C02_source_slice_casts :
+  small_of "GenericArray" "from_slice" =
+    Some ["if slice . len () != N :: USIZE { panic ! (""slice.len() != N in GenericArray::from_slice"") ; }";
+          "unsafe { & * (slice . as_ptr () as * const GenericArray < T , N >) }"] /\
+  small_of "GenericArray" "try_from_slice" =
+    Some ["if slice . len () != N :: USIZE { return Err (LengthError) ; }";
+          "Ok (unsafe { & * (slice . as_ptr () as * const GenericArray < T , N >) })"] /\
+  small_of "GenericArray" "from_mut_slice" =
+    Some ["assert ! (slice . len () == N :: USIZE , ""slice.len() != N in GenericArray::from_mut_slice"") ;";
+          "unsafe { & mut * (slice . as_mut_ptr () as * mut GenericArray < T , N >) }"].
+Proof. exact tie_slice_casts. Qed.
